@@ -73,6 +73,44 @@ func (e *ether) provider(node string, ip string) *etherProvider {
 	return p
 }
 
+// kill removes the provider of a crashed process: nothing is delivered to it
+// any more, no goodbye is sent; unless a new instance of the node announces
+// within the record's time-to-live (120 s) the others then see it disappear.
+func (e *ether) kill(p *etherProvider) {
+	e.mu.Lock()
+	for i, q := range e.provs {
+		if q == p {
+			e.provs = append(e.provs[:i:i], e.provs[i+1:]...)
+			break
+		}
+	}
+	e.mu.Unlock()
+	p.mu.Lock()
+	p.started = false
+	ann := p.announced
+	it := p.itemLocked(true)
+	p.mu.Unlock()
+	if !ann {
+		return
+	}
+	e.x.S.After(120*time.Second, "mdns-ttl "+p.node, "", func() {
+		e.mu.Lock()
+		provs := append([]*etherProvider(nil), e.provs...)
+		e.mu.Unlock()
+		for _, q := range provs {
+			q.mu.Lock()
+			again := q.node == p.node && q.announced
+			q.mu.Unlock()
+			if again {
+				return
+			}
+		}
+		for _, q := range provs {
+			e.send(q, it)
+		}
+	})
+}
+
 // resync models what real mDNS does after an outage: periodic queries and
 // re-announcements make every listener learn the current announcements again.
 func (e *ether) resync() {
@@ -337,7 +375,11 @@ type hubNode struct {
 	app   *recApp
 	prov  *etherProvider
 	ready chan struct{}
+	gen   int // process instance number (restarts)
 }
+
+// group names the current process instance of the node (simrt task group).
+func (n *hubNode) group() string { return fmt.Sprintf("%s#%d", n.name, n.gen) }
 
 type hubRig struct {
 	x     *Ctx
@@ -432,10 +474,15 @@ func (r *hubRig) addNode(name string) *hubNode {
 
 // create builds certificate, mDNS manager and hub (inside the calling task).
 func (n *hubNode) create() {
-	c, err := cert.CreateCertificate("unit", "org", "DE", "cn-"+n.name)
-	if err != nil {
-		n.rig.x.HarnessError("certificate: " + err.Error())
-		return
+	simrt.SetGroup(n.group())
+	c := n.cert
+	if n.gen == 0 {
+		var err error
+		c, err = cert.CreateCertificate("unit", "org", "DE", "cn-"+n.name)
+		if err != nil {
+			n.rig.x.HarnessError("certificate: " + err.Error())
+			return
+		}
 	}
 	n.cert = c
 	leaf, err := x509.ParseCertificate(c.Certificate[0])
@@ -458,7 +505,42 @@ func (n *hubNode) create() {
 	local.SetDeviceType("type")
 	n.hub = hub.NewHub(n.app, n.mdns, n.port, n.cert, local)
 	n.rig.x.Ev("node-created", n.name, n.ski, n.port)
-	close(n.ready)
+	if n.gen == 0 {
+		close(n.ready)
+	}
+}
+
+// crash kills the current process instance of the node: its goroutines never
+// run again, its listener is gone, its connections are reset (rst: the process
+// was killed, the operating system closes its sockets) or just go silent (power
+// loss). Its mDNS announcement stays in the caches of the others until the
+// record's time-to-live runs out or a new instance announces again.
+func (n *hubNode) crash(rst bool) {
+	x := n.rig.x
+	g := n.group()
+	x.Ev("crash", n.name, fmt.Sprintf("rst=%v", rst), n.gen)
+	x.S.Freeze(g)
+	x.Net.CrashGroup(g, rst)
+	n.rig.eth.kill(n.prov)
+}
+
+// restart brings up a new process instance with the same certificate, port and
+// application; the application registers the given peers again (pairing is the
+// application's persistent state). Runs in a task of the new instance.
+func (n *hubNode) restart(peers ...*hubNode) {
+	n.gen++
+	done := make(chan struct{})
+	n.rig.x.Go(fmt.Sprintf("%s:restart%d", n.name, n.gen), func() {
+		defer close(done)
+		n.create()
+		for _, p := range peers {
+			n.hub.RegisterRemoteSKI(p.ski)
+			n.rig.x.Ev("op-register", n.name, p.name, 0)
+		}
+		n.hub.Start()
+		n.rig.x.Ev("op-start", n.name, "restart", n.gen)
+	})
+	simrt.Recv("restart-done", done)
 }
 
 func (r *hubRig) node(name string) *hubNode { return r.nodes[name] }
@@ -479,6 +561,7 @@ func (n *hubNode) on(what string, f func()) {
 	done := make(chan struct{})
 	n.rig.x.Go(n.name+":"+what, func() {
 		defer close(done)
+		simrt.SetGroup(n.group())
 		f()
 	})
 	simrt.Recv("op-done", done)
